@@ -435,9 +435,12 @@ class Project(MessageHandler):
 
         def propagate_end_to_children(task: Any, container_end: Optional[Any]) -> None:
             """Recursively propagate end constraint down the task tree."""
-            task_end = task.get("end", scIdx)
+            task_end = task.get("end", scIdx) if task.provided("end", scIdx) else None
             # Use the most restrictive (earliest) end date
-            effective_end = task_end if task_end else container_end
+            if task_end and container_end:
+                effective_end = min(task_end, container_end)
+            else:
+                effective_end = task_end if task_end else container_end
 
             if task.leaf():
                 # Leaf task - apply the constraint if ALAP, no explicit end,
@@ -457,12 +460,11 @@ class Project(MessageHandler):
                 for child in task.children:
                     propagate_end_to_children(child, effective_end)
 
-        # Start from root tasks (no parent)
+        # Start from root tasks (no parent). Every root is walked: a container with an
+        # end date may sit below a root that has none.
         for task in self.tasks:
             if task.parent is None:
-                task_end = task.get("end", scIdx)
-                if task_end:
-                    propagate_end_to_children(task, task_end)
+                propagate_end_to_children(task, None)
 
     def finishScenario(self, scIdx: int) -> None:
         for task in self.tasks:
